@@ -5,6 +5,7 @@ from checks.storegen import World, PLAIN, NAMES, BLOCK_KINDS, REL_OF
 from checks import C01, C04, C05, C06, C08, C17
 ID = 'C16'
 FLAVOUR = {'quick': 'asan', 'thorough': 'asan'}
+NEEDS_PLAIN = True      # the memcheck cases (meta valgrind) run on the plain build under valgrind
 THEOREMS = ['Nix.C16.tag_accesses_in_bounds', 'Nix.C16.slice_accesses_in_bounds', 'Nix.C16.slice_arg_no_raw_overrun',
             'Nix.C16.maximumExtents_length', 'Nix.C16.mtag_accesses_in_bounds',
             'Nix.St.createMultiTag_uninitialised', 'Nix.St.createFeature_uninitialised', 'Nix.St.validHandle_none', 'Nix.SizeVec.flat_access_in_bounds', 'Nix.SizeVec.flat_access_refused', 'Nix.SizeVec.typed_access_in_bounds', 'Nix.SizeVec.typed_access_refused', 'Nix.SizeVec.sub_access_in_bounds', 'Nix.SizeVec.idx_in_bounds', 'Nix.SizeVec.idx_refused', 'Nix.SizeVec.div_divisors_nonzero', 'Nix.SizeVec.positionInData_sound']
@@ -170,7 +171,40 @@ def cases(tier, seed, rng):
     # position tests, per-column getters of a data-frame dimension; answers predicted by NixModel/SizeVec.lean
     from checks import abuse_api
     api = abuse_api.cases(tier, seed + 1617, random.Random(seed * 7919 + 17))
-    return out + api + ab
+    return out + api + ab + memcheck_cases(tier, seed, ab)
+
+def memcheck_cases(tier, seed, ab):
+    """programs for valgrind's memcheck on the PLAIN build (meta valgrind): what the sanitizer build cannot see — reads and writes
+    outside allocated blocks INSIDE libhdf5, which is not instrumented (the library hands it caller-supplied count / offset / shape
+    arrays).  Hand-written rank abuse of the raw data API of arrays and views, plus a slice of the token-level abuse programs of
+    the array, dimension and index families."""
+    from vlib.runner import Case
+    from vlib.tok import f64, lst
+    rng = random.Random(seed * 65537 + 43)
+    out = []
+    for k in range(3 if tier == 'quick' else 40):
+        rank = 1 + k % 3
+        shape = [rng.choice([2, 3, 4]) for _ in range(rank)]
+        L = ['da_new %s %s none none' % (rng.choice(['Double', 'Int32', 'String', 'UInt8']), lst([str(x) for x in shape]))]
+        def vec(n, pool): return lst([str(rng.choice(pool)) for _ in range(n)])
+        for _ in range(10 if tier == 'quick' else 25):
+            nc, no = rng.randint(0, rank + 1), rng.randint(0, rank + 1)
+            q = rng.random()
+            if q < 0.35: L.append('da_rd Double %s %s 1' % (vec(nc, [1, 1, 2]), vec(no, [0, 0, 1])))
+            elif q < 0.6: L.append('da_wr Double %s %s %s' % (vec(nc, [1, 1, 2]), vec(no, [0, 0, 1]), lst([f64(1.0)])))
+            elif q < 0.7: L.append('da_ext %s' % vec(rng.randint(0, rank + 1), [1, 2, 5]))
+            elif q < 0.8: L.append('da_app Double %s %d %s' % (vec(nc, [1, 2]), rng.randint(0, rank), lst([f64(2.0)])))
+            elif q < 0.9:
+                L.append('dv_new %s %s' % (vec(nc, [1, 2]), vec(no, [0, 1])))
+                L.append('dv_rd Double %s %s 1' % (vec(rng.randint(0, rank + 1), [1, 1, 2]), vec(rng.randint(0, rank + 1), [0, 0, 1])))
+            else:
+                L.append('dv_wr Double %s %s %s' % (vec(rng.randint(0, rank + 1), [1, 1]), vec(rng.randint(0, rank + 1), [0, 0, 1]), lst([f64(3.0)])))
+        out.append(Case(L, 'memcheck:rank-abuse', meta={'valgrind': True}))
+    pick = [c for c in ab if c.origin.split(':')[-1] in ('array', 'dimdesc', 'region-index')]
+    step = max(1, len(pick) // (10 if tier == 'quick' else 120))
+    for c in pick[::step]:
+        out.append(Case(c.lines, 'memcheck:' + c.origin, meta={'valgrind': True}))
+    return out
 
 def relevant(f):
     # memory errors, crashes, hangs — and harness/driver mismatches of this family's own ops
